@@ -686,8 +686,9 @@ def observe_asgi(out):
         # complete response: start, then >= 1 body events, more_body false on the last and only there
         legal = ok and code is not None and len(bodies) >= 1 and not bodies[-1] and all(bodies[:-1])
     else:
-        # an aborted response: any prefix of a legal sequence
-        legal = ok and all(bodies)
+        # an aborted response: any prefix of a legal sequence - or the whole of one (the application failed in its
+        # clean-up, after the last body message: the server still sees that exception)
+        legal = ok and (all(bodies) or (code is not None and not bodies[-1] and all(bodies[:-1])))
     return {"legal": legal, "code": code, "lines": lines, "body": body, "err": err, "calls": int(f["calls"]),
             "committed": code is not None}
 
